@@ -131,8 +131,12 @@ var (
 )
 
 func rootSpec(name string) vh.CertSpec {
-	keys := map[string]string{"rootA": "rsa2048a", "rootB": "p256a", "rootC": "rsa2048b", "foreign": "rsa2048c"}
-	return vh.CertSpec{CN: "verif " + name, Key: keys[name], IsCA: true, Serial: 7}
+	keys := map[string]string{"rootA": "rsa2048a", "rootB": "p256a", "rootC": "rsa2048b", "foreign": "rsa2048c", "twinA": "rsa2048d"}
+	cn := "verif " + name
+	if name == "twinA" {
+		cn = "verif rootA" // another CA that borrows root A's name (different key, never in the pool)
+	}
+	return vh.CertSpec{CN: cn, Key: keys[name], IsCA: true, Serial: 7}
 }
 
 func rootCert(name string) *x509.Certificate {
@@ -165,7 +169,9 @@ func deviceCert(dev, issuer, validity string) *x509.Certificate {
 	case "future":
 		spec.NotBefore, spec.NotAfter = now.Add(24*time.Hour), now.Add(48*time.Hour)
 	}
-	if issuer != "self" {
+	if issuer == "selftwin" {
+		spec.CN = "verif rootA" // self-signed under root A's name
+	} else if issuer != "self" {
 		spec.Issuer = rootCert(issuer)
 		spec.IssuerKey = rootSpec(issuer).Key
 	}
@@ -471,6 +477,65 @@ func TestC06ChainTime(t *testing.T) {
 			o.NonTrivial = true
 			return o, err
 		}}, cases)
+}
+
+// TestC06Sequence: several attestations on ONE Attestor (state carried over between calls must not matter).
+type SeqCall struct {
+	DevKey   string
+	Issuer   string
+	Validity string
+}
+
+type SeqCase struct {
+	Calls []SeqCall
+}
+
+func TestC06Sequence(t *testing.T) {
+	vh.Run(t, vh.Spec[SeqCase]{Property: "C06", Name: "TestC06Sequence",
+		Rule: "2..5 attestations on one Attestor (pool = root A): device certificates for the same or another device key issued by root A, by another CA that carries root A's name, self-signed under root A's name, by a foreign CA; valid / expired; all with the same serial number and a genuine signature over the slot certificate. Oracle per call, independent of the calls before it: accepted iff issued by root A and valid now. Non-trivial: a genuine call followed by an impostor call.",
+		Gen: func(t *rapid.T) SeqCase {
+			n := rapid.IntRange(2, 5).Draw(t, "n")
+			c := SeqCase{}
+			for i := 0; i < n; i++ {
+				c.Calls = append(c.Calls, SeqCall{
+					DevKey:   rapid.SampledFrom([]string{"rsa1024a", "rsa1024a", "rsa1536"}).Draw(t, fmt.Sprintf("dev%d", i)),
+					Issuer:   rapid.SampledFrom([]string{"rootA", "rootA", "twinA", "selftwin", "foreign", "self"}).Draw(t, fmt.Sprintf("iss%d", i)),
+					Validity: rapid.SampledFrom([]string{"ok", "ok", "ok", "expired"}).Draw(t, fmt.Sprintf("val%d", i)),
+				})
+			}
+			return c
+		},
+		Exec: func(c SeqCase) (vh.Outcome, error) {
+			out := vh.Outcome{}
+			pool := x509.NewCertPool()
+			pool.AddCert(rootCert("rootA"))
+			at := yubiattest.NewAttestorWithCAPool(pool)
+			tbs := []byte("slot certificate body for the sequence check")
+			seenGenuine := false
+			for i, call := range c.Calls {
+				key := vh.RSAKey(call.DevKey)
+				k := (key.N.BitLen() + 7) / 8
+				em := encoded(k, prefixNULL["sha256"], digest("sha256", tbs))
+				sig := new(big.Int).Exp(new(big.Int).SetBytes(em), key.D, key.N).FillBytes(make([]byte, k))
+				f9 := deviceCert(call.DevKey, call.Issuer, call.Validity)
+				slot := &x509.Certificate{SignatureAlgorithm: x509.SHA256WithRSA, RawTBSCertificate: tbs, Signature: sig}
+				var aerr error
+				if perr := vh.Catch(func() { aerr = at.Attest(f9, slot) }); perr != nil {
+					return out, vh.Errf("call %d: Attest crashed: %v", i, perr)
+				}
+				want := call.Issuer == "rootA" && call.Validity == "ok"
+				if want {
+					seenGenuine = true
+				} else if seenGenuine {
+					out.NonTrivial = true
+				}
+				out.Classes = append(out.Classes, "issuer="+call.Issuer)
+				if (aerr == nil) != want {
+					return out, vh.Errf("call %d of %+v on one Attestor: Attest returned %v for a device certificate issued by %s (%s); expected accepted=%v", i, c.Calls, aerr, call.Issuer, call.Validity, want)
+				}
+			}
+			return out, nil
+		}})
 }
 
 // TestC06RealDER goes through real DER: a slot certificate created by a conforming encoder and signed
